@@ -224,6 +224,25 @@ pub fn check_engine_defaults(engine: &Engine, file: &FileVoice, lines: &[String]
             Ok(w) => w,
             Err(e) => fail!("engine-synthesize", "generator failed: {}", e),
         };
+        // "handed to synthesis": what the engine's generator works from are the Gaussians of
+        // Models, untouched - also for states that only become voiced under a low threshold
+        // (unvoiced-only PDFs, whose log-F0 mean is 0 in trained voices)
+        for thr in [None, Some(0.0)] {
+            let mut e = engine.clone();
+            if let Some(t) = thr {
+                e.condition.set_msd_threshold(1, t);
+            }
+            let g = match e.generator(lines) {
+                Ok(g) => g,
+                Err(e) => fail!("engine-synthesize", "generator failed: {}", e),
+            };
+            let tr = crate::engine_util::trajectories(&g);
+            let (durations, _, _) = super::c01::expected_durations(&e, lines, false)?;
+            let publ = super::c01::public_trajectories(&e, lines, &durations)?;
+            if let Some(d) = super::c01::traj_close(&tr, &publ, 1e-9) {
+                fail!("handed-to-synthesis", "with the log-F0 voicing threshold {:?} the generator's trajectories are not those of the Gaussians that Models selects (MlpgAdjust on model_stream(i), durations from the duration model): {}", thr, d);
+            }
+        }
         ensure!(wave.len() == mine.len(), "engine-defaults", "waveform length {} != {} rendered with the header's GAMMA/LN_GAIN/ALPHA", wave.len(), mine.len());
         if let Some(i) = (0..wave.len()).find(|&i| wave[i].to_bits() != mine[i].to_bits() && !(wave[i].is_nan() && mine[i].is_nan())) {
             fail!(
